@@ -263,5 +263,5 @@ func TestC14(t *testing.T) {
 		ev.Class("pair:" + p[0].Target + "." + p[0].Method + "|" + p[1].Target + "." + p[1].Method)
 		return c
 	}, c14Run)
-	ev.Check(t, "c14_workload", ev.N(1600, 32000), c14Gen, c14Run)
+	ev.Check(t, "c14_workload", ev.N(3200, 48000), c14Gen, c14Run)
 }
